@@ -27,7 +27,11 @@ if [ "${1:-}" = "--replay" ]; then
 fi
 tier="${1:-quick}"
 if [ "$tier" = quick ]; then fanouts="3 4 16"; else fanouts="3 4 5 6 16"; fi
-if [ "$tier" = "--build" ]; then for f in 3 4 5 6 16; do build_variant $f; done; exit 0; fi
+if [ "$tier" = "--build" ]; then
+  for f in 3 4 5 6 16; do build_variant $f; done
+  if [ "$prop" = C01 ]; then props/mcrun.sh C01 --build; go build -race -tags verif -o bin/c01_race ./props/c01; fi
+  exit 0
+fi
 pids=""
 for f in $fanouts; do ( build_variant $f; echo $? > $B/rc$f ) & pids="$pids $!"; done
 wait $pids
@@ -46,4 +50,21 @@ for f in $fanouts; do
   fi
   parts="$parts $part"
 done
+if [ "$prop" = C01 ]; then
+  # last sentence of C01: concurrent Puts to present keys. Engine E2 part + free-running -race pass.
+  props/mcrun.sh C01 --build || exit 2
+  rm -f $B/C01.mc.json $B/C01.race.json
+  VERIF_PART=$PWD/$B/C01.mc.json VERIF_PART_NAME=concurrent-puts bin/c01_mc $tier || { echo "INFRASTRUCTURE ERROR: concurrent part failed" >&2; exit 2; }
+  parts="$parts $B/C01.mc.json"
+  if go build -race -tags verif -o bin/c01_race ./props/c01 2> $B/race-build.log; then
+    GORACE="exitcode=66 halt_on_error=1" VERIF_PART=$PWD/$B/C01.race.json VERIF_PART_NAME=race-pass bin/c01_race $tier > $B/race.log 2>&1; rc=$?
+    if [ $rc = 66 ]; then
+      head -40 $B/race.log >&2
+      printf '{"name":"race-pass","cov":{"race_pass":"DATA RACE reported"},"samples":[],"assumptions":[],"viols":[{"signature":"treePut/data-race","detail":"the Go race detector reported a data race in a free-running execution of concurrent Puts to present keys and reads of other keys (see .build/tree/race.log)","replay":{"mode":"race"}}],"known":[],"capped":[],"states":1,"transitions":1,"validated":1,"wall":0}' > $B/C01.race.json
+    elif [ $rc != 0 ]; then cat $B/race.log >&2; echo "INFRASTRUCTURE ERROR: race pass failed" >&2; exit 2; fi
+    parts="$parts $B/C01.race.json"
+  else
+    cat $B/race-build.log >&2; echo "INFRASTRUCTURE ERROR: -race build failed" >&2; exit 2
+  fi
+fi
 exec bin/vxmerge $prop $tier $parts
